@@ -101,7 +101,9 @@ ReTable == << Lit("a"),                              \* 1  a
               Cat(Lit("a"), Opt(Lit("b"))),          \* 6  ab?
               Cat(Alt(Lit("a"), Lit("x")), Lit("b")),\* 7  (?:a|x)b
               Cat(Lit("b"), Eol),                    \* 8  b$
-              Alt(Cat(Bol, Lit("a")), Lit("b")) >>   \* 9  ^a|b   (what polars str_matches makes of a|b)
+              Alt(Cat(Bol, Lit("a")), Lit("b")),     \* 9  ^a|b   (what polars str_matches makes of a|b)
+              Eol,                                   \* 10 $      (matches only the empty string with re.match)
+              Lit("0") >>                            \* 11 0      (matches the integer column label 0 after astype(str))
 Re(v) == ReTable[v[2]]
 rv(k) == <<"re", k>>
 
